@@ -202,6 +202,15 @@ func (l Layout) node(sb *strings.Builder, n Node, a Ann, notes []string, indent,
 	ann := l.annotation(a, notes, indent)
 	switch n.K {
 	case "scalar", "ref":
+		if n.K == "ref" && strings.Contains(n.Text, " | ") {
+			// blank space around the `|` of a choice is presentation: tight with /* */ on one line, wide with padding
+			switch {
+			case l.Multi == 1 && l.Pad == 0:
+				n.Text = strings.ReplaceAll(n.Text, " | ", "|")
+			case l.Pad == 2:
+				n.Text = strings.ReplaceAll(n.Text, " | ", "  |  ")
+			}
+		}
 		if l.Comments == 4 && ann != "" {
 			// a block comment of two lines between the value and its annotation: presentation only, the annotation
 			// on the comment's closing line still belongs to the value
